@@ -476,6 +476,13 @@ def run(ctx):
     r2_payload_sites(ctx)
     r4_encoders(ctx)
     r5_only_signed_requests_leave(ctx)
+    # the streamed body is read in pieces of the size the command chose: a size of 0 makes the body iterator end at once -
+    # an empty body under the hash and content-length of the whole payload.  The commands' unit is max(.., 1).
+    from ..report import Relabel as _RL16
+    from . import c20 as _c20
+
+    del _c20._DIVISORS_SEEN[:]
+    _c20.r1_r3(_RL16(ctx, 'C16.R2'))
     from .c12 import r2_rewind
 
     r2_rewind(ctx, rule='C16.R2', only={'S3Compatible'}, floor=2)
